@@ -310,6 +310,12 @@ def streams_x1(run, rng, quick, model, vh, schema):
     info = model_eval(model, "xmlinfo", cs)
     st = run.stream("toXML-property")
     known_seen = {}
+    pending = []          # unlisted deviations: only the three smallest inputs are reported
+
+    class _Cap:
+        def violation(self, key, what, rep, found_input=True):
+            pending.append((len(str(rep.get("finding", rep))), key, what, rep, found_input))
+    real_run, run = run, _Cap()
     for c, out, inf in zip(cs, impl, info):
         names = names_of(c)
         ctl = any(any(b < 32 for b in n) for n in names)
@@ -352,6 +358,9 @@ def streams_x1(run, rng, quick, model, vh, schema):
                                                                            "how": "echo '%s' | build/harness/vh_c26 xml" % vlib.enc_case(c)})
             elif k not in known_seen or len(vlib.enc_case(c)) < len(vlib.enc_case(known_seen[k][0])):
                 known_seen[k] = (c, what, out[0])
+    run = real_run
+    for _, key, what, rep, fi in sorted(pending, key=lambda x: x[0])[:3]:
+        run.violation(key, what, dict(rep, similar_deviations_this_run=len(pending)), found_input=fi)
     for k, (c, p, out) in known_seen.items():
         run.violation(k, {"xml-control-char": "a byte below 0x20 in id/file0/file/origfile/symbol is written raw into the XML report",
                           "xml-nonutf8-name": "a name that is not valid UTF-8 is written raw into the XML report (declared UTF-8)"}.get(k, "toXML writes what cppcheck-errors.rng does not allow: " + str(p)),
